@@ -201,6 +201,7 @@ class Library:
         self._table = None      # [(objective, integer assignment tuple, full valuation)] of the feasible points, sorted
         self._seen_cons = 0
         self.solves = 0
+        self.force_status = None  # scenario: the library reports this status for the (feasible) optimum it found, e.g. FEASIBLE
         self.built = None       # number of constraints when the model was first solved (later ones are cuts of a read-out loop)
 
     def infinity(self):
@@ -446,7 +447,7 @@ class Library:
         self.best = obj
         for v in self.vars:
             v.value = val.get(v, 0.0)
-        return self.OPTIMAL
+        return self.OPTIMAL if self.force_status is None else self.force_status
 
 
 def wrapper_model(repo, funcs=None, consts=None):
